@@ -91,7 +91,8 @@ _wresp.http_date = _fixed_http_date
 
 # ------------------------------------------------------------------ V: validators
 
-TAG_ATOMS = ['"a"', 'W/"a"', '"b"', 'W/"b"', "*", 'a"', "a"]
+# '"*"' / 'W/"*"': a QUOTED star is an ordinary opaque tag, not the wildcard (seed C11-4b)
+TAG_ATOMS = ['"a"', 'W/"a"', '"b"', 'W/"b"', "*", 'a"', "a", '"*"', 'W/"*"']
 
 
 NMAX_THOROUGH = 16
@@ -115,7 +116,7 @@ def tag_headers():
     return seen
 
 
-ETAGS = [None, ("a", False), ("a", True), ("b", False)]
+ETAGS = [None, ("a", False), ("a", True), ("b", False), ("*", False)]
 # (name, value handed to Response.last_modified / is_resource_modified, raw header text or None)
 LMS = [
     ("none", None, None),
@@ -345,6 +346,9 @@ EXTRA_RANGES = [
     "bytes=0-1,3-4", "bytes=0-0,-1", "bytes=0-,1-", "bytes=-1,-2", "bytes=0-0,0-0", "bytes=0-0, 2-2",
     # whitespace
     "bytes= 1 - 2 ", " bytes=1-2", "bytes =1-2", "bytes=\t1-2", "bytes=1-2 ", "bytes=- 1", "bytes= -1",
+    # optional whitespace around a complete spec, every spec form and both blank characters
+    "bytes=\t-2", "bytes= -1 ", "bytes=-1\t", "bytes= 0-", "bytes=0- ", "bytes=\t1-\t", "bytes=\t0-0\t", "bytes= 0-1",
+    "bytes=  -2  ", "\tbytes=0-0", "bytes=0-0 , 2-2", "bytes= 0-0 ,", "bytes=0 -1", "bytes=0- 1", "bytes=-\t1",
     # units
     "items=0-1", "BYTES=1-2", "Bytes=0-", "bytes=00-01",
     # list syntax with an empty element
@@ -376,7 +380,10 @@ def ref_range(hdr, n):
     loose = re.fullmatch(r"\s*bytes\s*=(.*)", hdr, re.I | re.S)
     if not loose:
         return {"416"}
-    lenient = re.fullmatch(r"bytes=(.*)", hdr, re.S) is None
+    # blanks around the whole field value and around a list element are optional whitespace in every HTTP list
+    # syntax: they are insignificant, so ' -5' must get the verdict of '-5' (seed C11-4a).  Blanks *inside* a spec
+    # ('1 - 2', '- 1'), before '=' or a non-lowercase unit are not OWS positions: strict 416 or lenient 206.
+    lenient = re.fullmatch(r"[ \t]*bytes=(.*)", hdr, re.S) is None
     specs = loose.group(1).split(",")
     if len(specs) != 1:
         nonempty = [s for s in specs if s.strip()]
@@ -384,8 +391,8 @@ def ref_range(hdr, n):
             return {"416"}
         lenient = True
         specs = nonempty
-    s = specs[0]
-    if s != s.strip() or re.search(r"\s", s):
+    s = specs[0].strip(" \t")
+    if re.search(r"\s", s):
         lenient = True
     res = None
     m = re.fullmatch(r"\s*([0-9]+)\s*-\s*([0-9]*)\s*", s)
